@@ -1,13 +1,13 @@
 package main
 
 import (
+	"encoding/json"
+	"flag"
 	"fmt"
 	"os"
-	"sort"
+	"strings"
 
 	"gvc/gvc"
-
-	"golang.org/x/tools/go/ssa"
 )
 
 func main() {
@@ -16,57 +16,10 @@ func main() {
 		os.Exit(2)
 	}
 	switch os.Args[1] {
-	case "scan":
-		p, err := gvc.Load("/repo", false)
-		if err != nil {
-			fmt.Println(err)
-			os.Exit(2)
-		}
-		ext := map[string]int{}
-		kinds := map[string]int{}
-		for _, fn := range p.AllRepoFuncs() {
-			var visit func(f *ssa.Function)
-			visit = func(f *ssa.Function) {
-				for _, b := range f.Blocks {
-					for _, in := range b.Instrs {
-						kinds[fmt.Sprintf("%T", in)]++
-						if c, ok := in.(ssa.CallInstruction); ok {
-							cc := c.Common()
-							if cc.IsInvoke() {
-								ext["invoke "+cc.Value.Type().String()+"."+cc.Method.Name()]++
-							} else if sf := cc.StaticCallee(); sf != nil {
-								if !gvc.InRepo(sf) {
-									ext[sf.String()]++
-								}
-							} else if b, ok := cc.Value.(*ssa.Builtin); ok {
-								ext["builtin "+b.Name()]++
-							} else {
-								ext["dynamic "+cc.Value.Type().String()]++
-							}
-						}
-					}
-				}
-				for _, af := range f.AnonFuncs {
-					visit(af)
-				}
-			}
-			visit(fn)
-		}
-		pr := func(m map[string]int) {
-			var ks []string
-			for k := range m {
-				ks = append(ks, k)
-			}
-			sort.Strings(ks)
-			for _, k := range ks {
-				fmt.Printf("%6d %s\n", m[k], k)
-			}
-		}
-		pr(kinds)
-		fmt.Println("----")
-		pr(ext)
+	case "version":
+		fmt.Println("gvc 0.1")
 	case "dump":
-		p, err := gvc.Load("/repo", false)
+		p, err := gvc.Load("/repo", true)
 		if err != nil {
 			fmt.Println(err)
 			os.Exit(2)
@@ -77,5 +30,59 @@ func main() {
 			os.Exit(2)
 		}
 		fn.WriteTo(os.Stdout)
+	case "verify":
+		fs := flag.NewFlagSet("verify", flag.ExitOnError)
+		verbose := fs.Bool("v", false, "verbose")
+		repo := fs.String("repo", "/repo", "repository")
+		posts := fs.Bool("posts", true, "check postconditions")
+		noalias := fs.Bool("noalias", false, "check noalias")
+		unroll := fs.Int("unroll", 3, "default loop bound")
+		asJSON := fs.Bool("json", false, "json output")
+		fs.Parse(os.Args[2:])
+		args := fs.Args()
+		p, err := gvc.Load(*repo, true)
+		if err != nil {
+			fmt.Println(err)
+			os.Exit(2)
+		}
+		cfg := gvc.DefaultConfig()
+		cfg.Verbose = *verbose
+		cfg.MaxUnroll = *unroll
+		for i := 1; i < len(args); i++ {
+			fn := p.LookupFunc(gvc.ModPath+"/"+args[0], args[i])
+			if fn == nil {
+				fmt.Println("not found:", args[i])
+				os.Exit(2)
+			}
+			r := gvc.VerifyFunc(p, fn, cfg, gvc.Options{UseRequires: true, CheckPosts: *posts, NoAlias: *noalias})
+			if *asJSON {
+				b, _ := json.MarshalIndent(r, "", " ")
+				fmt.Println(string(b))
+				continue
+			}
+			fmt.Println(r.Summary())
+			for _, o := range r.Obls {
+				if o.Status != "proved" || *verbose {
+					fmt.Printf("   %-8s %s  (inst=%d triv=%d)\n", o.Status, o.Name, o.Instances, o.Trivial)
+				}
+			}
+			for _, l := range r.Limits {
+				fmt.Println("   LIMIT:", l)
+			}
+			if *verbose {
+				for k, v := range r.Assumed {
+					fmt.Printf("   assumed x%d: %s\n", v, k)
+				}
+				fmt.Println("   inlined:", strings.Join(keys(r.Inlined), ", "))
+			}
+		}
 	}
+}
+
+func keys(m map[string]int) []string {
+	var ks []string
+	for k := range m {
+		ks = append(ks, k)
+	}
+	return ks
 }
